@@ -478,6 +478,8 @@ func c15Mixed(r *Rng, id string) Case {
 	}
 	order := r.Perm(len(pks))
 	v2 := r.Bool()
+	// version 2 also has a per-package rename map; whatever it does for its own package, it is not another's
+	pkgRename := v2 && r.Bool()
 	var entries []string
 	for _, k := range order {
 		p := pks[k]
@@ -490,13 +492,20 @@ func c15Mixed(r *Rng, id string) Case {
 			ov = `,"overrides":[` + p.ov + `]`
 		}
 		if v2 {
+			if pkgRename && p.name == "a" {
+				ov += `,"rename":{"name":"Label","author":"Writer","uid":"Key","created":"Born"}`
+			}
 			entries = append(entries, fmt.Sprintf(`{"engine":%q,"schema":%q,"queries":%q,"gen":{"go":{"package":%q,"out":%q%s}}}`, p.engine, schema, q, p.name, p.name, ov))
 		} else {
 			entries = append(entries, fmt.Sprintf(`{"name":%q,"path":%q,"engine":%q,"schema":%q,"queries":%q%s}`, p.name, p.name, p.engine, schema, q, ov))
 		}
 	}
 	if v2 {
-		files["sqlc.json"] = `{"version":"2","overrides":{"go":{"overrides":[` + strings.Join(globals, ",") + `]}},"sql":[` + strings.Join(entries, ",") + `]}`
+		gr := ""
+		if pkgRename {
+			gr = `,"rename":{"id":"Identifier"}`
+		}
+		files["sqlc.json"] = `{"version":"2","overrides":{"go":{"overrides":[` + strings.Join(globals, ",") + `]` + gr + `}},"sql":[` + strings.Join(entries, ",") + `]}`
 	} else {
 		files["sqlc.json"] = `{"version":"1","overrides":[` + strings.Join(globals, ",") + `],"packages":[` + strings.Join(entries, ",") + `]}`
 	}
@@ -504,7 +513,7 @@ func c15Mixed(r *Rng, id string) Case {
 	for _, k := range order {
 		orderNames = append(orderNames, pks[k].name)
 	}
-	tags := []string{"mixed-engines", "order:" + strings.Join(orderNames, ""), fmt.Sprintf("v2=%v", v2)}
+	tags := []string{"mixed-engines", "order:" + strings.Join(orderNames, ""), fmt.Sprintf("v2=%v", v2), fmt.Sprintf("package-rename=%v", pkgRename)}
 	in := J{"kind": "mixed", "files": files}
 	res := generate(files)
 	if !res.OK() {
@@ -527,6 +536,9 @@ func c15Mixed(r *Rng, id string) Case {
 			}
 		}
 		obs["model:"+p.name] = got
+		if pkgRename && p.name == "a" {
+			continue // its own rename map: not judged here
+		}
 		for _, fn := range sortedKeys(p.want) {
 			if got[fn] != p.want[fn] {
 				problems = append(problems, fmt.Sprintf("package %s (%s; own overrides [%s]; globals %v): Author.%s is %q, its configuration says %q", p.name, p.engine, p.ov, globals, fn, got[fn], p.want[fn]))
